@@ -157,8 +157,10 @@ impl crate::fold::Fold<TextRange> for LinearLocator<'_> {
 
         let name = self.fold(name)?;
         let type_params = self.fold(type_params)?;
+        // keywords may precede starred bases in the source (`class A(k=1, *b)`), so they
+        // are located without moving the cursor, as for a call
+        let keywords = LinearLookaheadLocator(self).fold(keywords)?;
         let bases = self.fold(bases)?;
-        let keywords = self.fold(keywords)?;
         let body = self.fold(body)?;
         let range = self.map_user(range, context)?;
 
